@@ -5,6 +5,7 @@
 //   c06_subsets subsets <out.ndjson> <stage>       stage 0: quick family of view numbers, 1: ALL views 1..96
 //   c06_subsets proj    <out.ndjson> <stage>       projector / objective-function level: which viewgrams are touched
 //   c06_subsets sched   <out.ndjson> <maxN> <iters> <stage>   sub-iteration -> subset schedules
+//   c06_subsets events  <out.ndjson> <stage>       which sub-iterations trigger filters / reports / files; resuming from a saved file
 //   c06_subsets recon   <out.ndjson> <out-sched.ndjson> <stage>   real reconstructions on recording data (both kinds of lines)
 //
 // A (view, segment) pair is logged as the integer code (segment+8)*256 + view; a (view, segment, TOF bin)
@@ -24,6 +25,9 @@
 #include "stir/OSMAPOSL/OSMAPOSLReconstruction.h"
 #include "stir/OSSPS/OSSPSReconstruction.h"
 #include "stir/analytic/FBP2D/FBP2DReconstruction.h"
+#include "stir/KOSMAPOSL/KOSMAPOSLReconstruction.h"
+#include "stir/IO/OutputFileFormat.h"
+#include "stir/DataProcessor.h"
 #include "stir/recon_buildblock/BinNormalisation.h"
 #include "stir/ProjDataInMemory.h"
 #include "stir/ProjDataInfoSubsetByView.h"
@@ -37,6 +41,8 @@
 #include <map>
 #include <algorithm>
 #include <sys/wait.h>
+#include <sys/stat.h>
+#include <dirent.h>
 #include <signal.h>
 using namespace stir;
 typedef DiscretisedDensity<3, float> Image;
@@ -647,6 +653,240 @@ static void mode_recon(vh::Trace& tr, vh::Trace& trs, int stage, vh::Rng& rng) {
 }
 
 // ---------------------------------------------------------------------------------------------------
+// events: which sub-iterations trigger which filter / report / file (and that resuming reads the file it is given)
+// ---------------------------------------------------------------------------------------------------
+// recording output file format: reports every file the reconstruction writes, then lets the default format write it
+class RecOutput : public OutputFileFormat<Image> {
+public:
+  std::function<void(const std::string&, const Image&)> cb;
+  shared_ptr<OutputFileFormat<Image>> real;
+  RecOutput() : real(OutputFileFormat<Image>::default_sptr()) {}
+  std::string get_registered_name() const override { return "RecOutput"; }
+  bool can_write(const Image&) const { return true; }
+protected:
+  Succeeded actual_write_to_file(std::string& filename, const Image& d) const override {
+    if (cb) cb(filename, d);
+    return real->write_to_file(filename, d);
+  }
+};
+// recording data processor (identity): reports when it is applied
+class RecFilter : public DataProcessor<Image> {
+public:
+  std::function<void()> cb;
+  std::string get_registered_name() const override { return "RecFilter"; }
+protected:
+  Succeeded virtual_set_up(const Image&) override { return Succeeded::yes; }
+  void virtual_apply(Image& out, const Image& in) const override { out = in; if (cb) cb(); }
+  void virtual_apply(Image&) const override { if (cb) cb(); }
+};
+
+struct EvOSMAPOSL : public OSMAPOSLReconstruction<Image> { void set_initial(const std::string& f) { initial_data_filename = f; } };
+struct EvOSSPS : public OSSPSReconstruction<Image> {
+  EvOSSPS() { precomputed_denominator_filename = "1"; relaxation_parameter = 1.F; relaxation_gamma = 0.F; upper_bound = 1e9; }
+  void set_initial(const std::string& f) { initial_data_filename = f; }
+  void set_write_update(int w) { write_update_image = w; }
+};
+struct EvKOSMAPOSL : public KOSMAPOSLReconstruction<Image> {
+  void set_initial(const std::string& f) { initial_data_filename = f; }
+  void set_kprefix(const std::string& f) { kernelised_output_filename_prefix = f; }
+};
+
+struct EvCfg {
+  std::string algo; int N, startSubset, startSubiter, numSubiters, save, iuInt, iiInt, report; bool hasIU, hasII, hasPF, writeUpdate, disableOutput, randomise;
+  int resume;       // > 0: first a complete run saving every sub-iteration, then this run is started from the file saved after sub-iteration `resume'
+};
+
+static long first_voxel(const Image& im) {
+  const float v = *im.begin_all_const();
+  return std::isfinite(v) && std::fabs(v) < 2.0e9 ? std::lround(v) : -1;
+}
+static std::string base_name(const std::string& path) { const size_t p = path.find_last_of('/'); return p == std::string::npos ? path : path.substr(p + 1); }
+
+struct EvLog { std::vector<std::vector<long>> ev; std::vector<std::string> files; bool setup_ok = false, err = false; int used = -1; std::string msg; };
+
+// one reconstruction through the parameter-less reconstruct() (initial image from `initial': "1" or a file name)
+static EvLog run_events_once(const EvCfg& c, const shared_ptr<Image>& tmpl, const std::string& dir, const std::string& prefix, const std::string& initial,
+                             int startSubiter) {
+  EvLog lg;
+  IterativeReconstruction<Image>* recon_ptr = nullptr;
+  auto k = [&]() { return recon_ptr ? (long)recon_ptr->get_subiteration_num() : -1L; };
+  const char* wanted = c.algo == "OSSPS" ? "sub_gradient" : "sub_gradient_ps";
+  vh::ObjCallback cb = [&](const vh::ObjCall& call) {
+    if (call.after) return;
+    if (call.is(wanted)) lg.ev.push_back({ 1, k(), call.subset_num, call.estimate ? first_voxel(*call.estimate) : -1 });
+    else if (call.is("value_all")) lg.ev.push_back({ 4, k(), 0, 0 });
+  };
+  shared_ptr<GeneralisedObjectiveFunction<Image>> obj;
+  if (c.algo == "OSSPS")
+    obj.reset(new vh::WrapObjective(shared_ptr<GeneralisedObjectiveFunction<Image>>(new vh::TrivialObjective(tmpl, 1.F, 1.F)), cb));
+  else   // gradient + sensitivity = 1, subset sensitivity = 1/2: every sub-iteration doubles the estimate
+    obj.reset(new vh::WrapPoissonLL(shared_ptr<PoissonLogLikelihoodWithLinearModelForMean<Image>>(new vh::TrivialPoissonLL(tmpl, 1.F, 0.5F * c.N)), cb));
+  shared_ptr<RecOutput> out(new RecOutput);
+  out->cb = [&](const std::string& f, const Image& im) {
+    const std::string b = base_name(f);
+    lg.ev.push_back({ b.find("_update_") != std::string::npos ? 3 : 7, k(), (long)lg.files.size() + 1, first_voxel(im) });
+    lg.files.push_back(b);
+  };
+  shared_ptr<RecFilter> iu(new RecFilter), ii(new RecFilter), pf(new RecFilter);
+  iu->cb = [&]() { lg.ev.push_back({ 2, k(), 0, 0 }); };
+  ii->cb = [&]() { lg.ev.push_back({ 5, k(), 0, 0 }); };
+  pf->cb = [&]() { lg.ev.push_back({ 6, k(), 0, 0 }); };
+  shared_ptr<IterativeReconstruction<Image>> recon;
+  lg.err = vh::threw([&] {
+    if (c.algo == "OSMAPOSL") {
+      auto* r = new EvOSMAPOSL; recon.reset(r); r->set_initial(initial);
+      r->set_inter_update_filter_interval(c.iuInt); if (c.hasIU) r->set_inter_update_filter_ptr(iu);
+      r->set_write_update_image(c.writeUpdate ? 1 : 0);
+    } else if (c.algo == "KOSMAPOSL") {
+      auto* r = new EvKOSMAPOSL; recon.reset(r); r->set_initial(initial);
+      r->set_inter_update_filter_interval(c.iuInt); if (c.hasIU) r->set_inter_update_filter_ptr(iu);
+      r->set_write_update_image(c.writeUpdate ? 1 : 0);
+      shared_ptr<Image> anat(tmpl->clone());
+      float a = 1.F; for (auto it = anat->begin_all(); it != anat->end_all(); ++it) { *it = a; a += 1.F; }
+      r->set_anatomical_prior_sptr(anat);
+      r->set_sigma_m(1.0);
+      r->set_kprefix(dir + "/K");
+    } else {
+      auto* r = new EvOSSPS; recon.reset(r); r->set_initial(initial); r->set_write_update(c.writeUpdate ? 1 : 0);
+    }
+    recon_ptr = recon.get();
+    recon->set_objective_function_sptr(obj);
+    recon->set_output_file_format_ptr(out);
+    recon->set_output_filename_prefix(dir + "/" + prefix);
+    recon->set_disable_output(c.disableOutput);
+    recon->set_num_subsets(c.N);
+    recon->set_start_subset_num(c.startSubset);
+    recon->set_start_subiteration_num(startSubiter);
+    recon->set_num_subiterations(c.numSubiters);
+    recon->set_save_interval(c.save);
+    recon->set_randomise_subset_order(c.randomise);
+    recon->set_inter_iteration_filter_interval(c.iiInt);
+    if (c.hasII) recon->set_inter_iteration_filter_ptr(ii);
+    if (c.hasPF) recon->set_post_processor_sptr(pf);
+    recon->set_report_objective_function_values_interval(c.report);
+    lg.setup_ok = recon->reconstruct() == Succeeded::yes;
+  }, &lg.msg);
+  if (recon) lg.used = recon->get_num_subsets();
+  return lg;
+}
+
+static std::vector<std::string> list_headers(const std::string& dir) {
+  std::vector<std::string> v;
+  if (DIR* d = opendir(dir.c_str())) {
+    while (dirent* e = readdir(d)) { std::string n = e->d_name; if (n.size() > 3 && n.substr(n.size() - 3) == ".hv") v.push_back(n.substr(0, n.size() - 3)); }
+    closedir(d);
+  }
+  std::sort(v.begin(), v.end());
+  return v;
+}
+static void remove_dir(const std::string& dir) {
+  if (DIR* d = opendir(dir.c_str())) {
+    while (dirent* e = readdir(d)) { std::string n = e->d_name; if (n != "." && n != "..") unlink((dir + "/" + n).c_str()); }
+    closedir(d);
+  }
+  rmdir(dir.c_str());
+}
+static std::string json_strings(const std::vector<std::string>& v) {
+  std::string s = "[";
+  for (size_t i = 0; i < v.size(); ++i) { if (i) s += ','; s += '"'; s += v[i]; s += '"'; }
+  return s + "]";
+}
+
+static void emit_event_run(vh::Trace& tr, const EvCfg& c, const EvLog& lg, int startSubiter, int resume, long prevVal, const std::vector<std::string>& disk,
+                           bool abort, int sig) {
+  tr.emit(vh::Json("EventRun").str("algo", c.algo).num("N", c.N).num("used", lg.used).num("startSubset", c.startSubset).num("startSubiter", startSubiter)
+              .num("numSubiters", c.numSubiters).num("save", c.save).num("iuInt", c.iuInt).boolean("hasIU", c.hasIU).num("iiInt", c.iiInt)
+              .boolean("hasII", c.hasII).boolean("hasPF", c.hasPF).num("report", c.report).boolean("writeUpdate", c.writeUpdate)
+              .boolean("disableOutput", c.disableOutput).boolean("randomise", c.randomise).str("prefix", "out").str("kprefix", "K")
+              .num("resume", resume).num("prevVal", prevVal).boolean("setupOk", lg.setup_ok).boolean("err", lg.err).boolean("abort", abort).num("sig", sig)
+              .arr2("ev", lg.ev).raw("files", json_strings(lg.files)).raw("disk", json_strings(disk)).str("msg", lg.err ? lg.msg : ""));
+}
+
+static void run_events(vh::Trace& tr, const EvCfg& c, const shared_ptr<Image>& tmpl, const std::string& dir) {
+  mkdir(dir.c_str(), 0700);
+  if (c.resume > 0) {
+    // the earlier, complete run: every sub-iteration saved
+    EvCfg c1 = c; c1.save = 1; c1.disableOutput = false; c1.resume = 0;
+    EvLog l1 = run_events_once(c1, tmpl, dir, "out", "1", 1);
+    emit_event_run(tr, c1, l1, 1, 0, 0, list_headers(dir), false, 0);
+    long prev = -1;
+    for (auto& e : l1.ev) if (e[0] == 7 && e[1] == c.resume) prev = e[3];
+    const std::string dir2 = dir + "/r";
+    mkdir(dir2.c_str(), 0700);
+    EvLog l2 = run_events_once(c, tmpl, dir2, "out", dir + "/out_" + std::to_string(c.resume) + ".hv", c.resume + 1);
+    emit_event_run(tr, c, l2, c.resume + 1, c.resume, prev, list_headers(dir2), false, 0);
+    remove_dir(dir2);
+  } else {
+    EvLog l = run_events_once(c, tmpl, dir, "out", "1", c.startSubiter);
+    emit_event_run(tr, c, l, c.startSubiter, 0, 0, list_headers(dir), false, 0);
+  }
+  remove_dir(dir);
+}
+
+static void mode_events(vh::Trace& tr, int stage, vh::Rng& rng, const std::string& scratch) {
+  shared_ptr<Scanner> sc = vh::make_scanner(8, 1);
+  shared_ptr<ProjDataInfo> pdi = ProjDataInfo::construct_proj_data_info(sc, 1, 0, 4, 3, false, 0);
+  shared_ptr<Image> tmpl(new VoxelsOnCartesianGrid<float>(*pdi, 1.F, CartesianCoordinate3D<float>(0.F, 0.F, 0.F), CartesianCoordinate3D<int>(-1, 3, 3)));
+  mkdir(scratch.c_str(), 0700);
+  long id = 0;
+  auto go = [&](const EvCfg& c) {
+    const std::string dir = scratch + "/run" + std::to_string(++id);
+    EvLog dead;
+    const int sig = forked(tr, nullptr, [&](vh::Trace& a, vh::Trace&) { run_events(a, c, tmpl, dir); });
+    if (sig) { emit_event_run(tr, c, dead, c.resume > 0 ? c.resume + 1 : c.startSubiter, c.resume, 0, std::vector<std::string>(), true, sig); remove_dir(dir + "/r"); remove_dir(dir); }
+  };
+  const std::vector<std::string> algos = { "OSMAPOSL", "OSSPS", "KOSMAPOSL" };
+  // systematic: every save interval / start / end for small runs (end not a multiple of the number of subsets included)
+  for (auto& algo : algos)
+    for (int N = 1; N <= 3; ++N)
+      for (int num = 1; num <= (stage ? 8 : 6); ++num)
+        for (int start = 1; start <= num + 1; ++start)
+          for (int save = 1; save <= num; ++save) {
+            if (!stage && rng.range(0, 3) != 0) continue;
+            if (algo == "KOSMAPOSL" && rng.range(0, 2) != 0) continue;
+            EvCfg c; c.algo = algo; c.N = N; c.startSubset = rng.range(0, N - 1); c.startSubiter = start; c.numSubiters = num; c.save = save;
+            c.iuInt = algo == "OSSPS" ? 0 : rng.range(0, 3); c.hasIU = c.iuInt > 0 && rng.range(0, 3) != 0; c.iiInt = rng.range(0, 3); c.hasII = c.iiInt > 0 && rng.range(0, 3) != 0;
+            c.hasPF = rng.coin(); c.report = rng.range(0, 3); c.writeUpdate = rng.range(0, 3) == 0; c.disableOutput = rng.range(0, 5) == 0; c.randomise = rng.range(0, 3) == 0;
+            if (algo == "OSSPS" && c.disableOutput) c.writeUpdate = false;   // contradictory settings, not exercised (see notes)
+            c.resume = 0;
+            go(c);
+          }
+  // seeded larger runs
+  for (int i = 0; i < (stage ? 400 : 80); ++i) {
+    EvCfg c; c.algo = algos[rng.range(0, 1)]; c.N = rng.range(1, 5); c.startSubset = rng.range(0, c.N - 1); c.numSubiters = rng.range(1, 20); c.startSubiter = rng.range(1, c.numSubiters);
+    c.save = rng.range(1, c.numSubiters); c.iuInt = c.algo == "OSSPS" ? 0 : rng.range(0, 5); c.hasIU = c.iuInt > 0 && rng.coin(); c.iiInt = rng.range(0, 5); c.hasII = c.iiInt > 0 && rng.coin();
+    c.hasPF = rng.coin(); c.report = rng.range(0, 4); c.writeUpdate = rng.range(0, 3) == 0; c.disableOutput = rng.range(0, 5) == 0; c.randomise = rng.coin(); c.resume = 0;
+    if (c.algo == "OSSPS" && c.disableOutput) c.writeUpdate = false;
+    go(c);
+  }
+  // settings set_up has to refuse
+  for (int i = 0; i < (stage ? 60 : 20); ++i) {
+    EvCfg c; c.algo = algos[rng.range(0, 1)]; c.N = rng.range(1, 3); c.startSubset = 0; c.numSubiters = rng.range(1, 6); c.startSubiter = 1; c.save = 1; c.iuInt = 0; c.hasIU = false; c.iiInt = 0; c.hasII = false;
+    c.hasPF = false; c.report = 0; c.writeUpdate = false; c.disableOutput = false; c.randomise = false; c.resume = 0;
+    switch (rng.range(0, 4)) {
+      case 0: c.save = 0; break;
+      case 1: c.save = c.numSubiters + rng.range(1, 3); break;
+      case 2: c.iiInt = -1; break;
+      case 3: c.startSubiter = 0; break;
+      default: c.numSubiters = 0; c.save = 1; break;
+    }
+    go(c);
+  }
+  // resuming: continue from the file saved after sub-iteration k
+  for (auto& algo : { std::string("OSMAPOSL"), std::string("OSSPS") })
+    for (int N = 1; N <= 3; ++N)
+      for (int num = 2; num <= (stage ? 9 : 6); ++num)
+        for (int k0 = 1; k0 < num; ++k0) {
+          if (!stage && rng.range(0, 1) != 0) continue;
+          EvCfg c; c.algo = algo; c.N = N; c.startSubset = rng.range(0, N - 1); c.startSubiter = 1; c.numSubiters = num; c.save = rng.range(1, num);
+          c.iuInt = 0; c.hasIU = false; c.iiInt = rng.range(0, 2); c.hasII = c.iiInt > 0; c.hasPF = rng.coin(); c.report = 0; c.writeUpdate = false; c.disableOutput = false; c.randomise = false;
+          c.resume = k0;
+          go(c);
+        }
+  rmdir(scratch.c_str());
+}
+
+// ---------------------------------------------------------------------------------------------------
 // schedules: the subset numbers IterativeReconstruction hands to the objective function
 // ---------------------------------------------------------------------------------------------------
 
@@ -746,6 +986,35 @@ static void run_schedule_forked(vh::Trace& tr, const SchedCfg& c, const shared_p
   }
 }
 
+// a long randomised run: how often each subset was used at each position of a full iteration, and the distinct orders seen
+static void run_randstats(vh::Trace& tr, int N, int iters, const shared_ptr<Image>& tmpl) {
+  std::vector<int> seq;
+  vh::ObjCallback cb = [&](const vh::ObjCall& call) { if (!call.after && call.is("sub_gradient")) seq.push_back(call.subset_num); };
+  shared_ptr<GeneralisedObjectiveFunction<Image>> obj(new vh::WrapObjective(shared_ptr<GeneralisedObjectiveFunction<Image>>(new vh::TrivialObjective(tmpl, 0.F, 1.F)), cb));
+  PlainOSSPS recon;
+  std::string msg;
+  const bool err = vh::threw([&] {
+    recon.set_objective_function_sptr(obj);
+    recon.set_disable_output(true);
+    recon.set_num_subsets(N);
+    recon.set_num_subiterations(N * iters);
+    recon.set_save_interval(N * iters);
+    recon.set_randomise_subset_order(true);
+    shared_ptr<Image> target(tmpl->clone());
+    target->fill(1.F);
+    if (recon.set_up(target) == Succeeded::yes) recon.reconstruct(target);
+  }, &msg);
+  std::vector<std::vector<int>> pos(N, std::vector<int>(N, 0));
+  std::set<long> perms;
+  for (size_t i = 0; i + N <= seq.size(); i += N) {
+    long code = 0;
+    for (int p = 0; p < N; ++p) { const int sub = seq[i + p]; if (sub >= 0 && sub < N) ++pos[p][sub]; code = code * N + sub; }
+    perms.insert(code);
+  }
+  std::vector<long> pl(perms.begin(), perms.end());
+  tr.emit(vh::Json("RandStats").num("N", N).num("iters", (long)(seq.size() / N)).boolean("err", err).boolean("abort", false).arr2("pos", pos).arr("perms", pl));
+}
+
 static void mode_sched(vh::Trace& tr, int maxN, int iters, int stage, vh::Rng& rng, const std::string& tmp) {
   shared_ptr<Scanner> sc = vh::make_scanner(8, 1);
   shared_ptr<ProjDataInfo> pdi = ProjDataInfo::construct_proj_data_info(sc, 1, 0, 4, 3, false, 0);
@@ -767,6 +1036,11 @@ static void mode_sched(vh::Trace& tr, int maxN, int iters, int stage, vh::Rng& r
     SchedCfg c; c.algo = rng.coin() ? "OSSPS" : "OSMAPOSL"; c.N = rng.range(maxN + 1, 24); c.maxSubsets = 0;
     c.startSubset = rng.range(0, c.N - 1); c.startSubiter = rng.range(1, 2 * c.N); c.numSubiters = 3 * c.N + rng.range(0, c.N); c.randomise = rng.coin(); c.reuseN = 0;
     run_schedule_forked(tr, c, tmpl, tmp);
+  }
+  // the randomised order is not degenerate (statistical clause, see Trace_IterSchedule.tla)
+  for (int N = 2; N <= (stage ? 6 : 4); ++N) {
+    const int sig = forked(tr, nullptr, [&](vh::Trace& a, vh::Trace&) { run_randstats(a, N, 400, tmpl); });
+    if (sig) tr.emit(vh::Json("RandStats").num("N", N).num("iters", 0).boolean("err", false).boolean("abort", true).arr2("pos", std::vector<std::vector<int>>()).arr("perms", std::vector<long>()));
   }
   // the objective function refuses the requested number of subsets (uses fewer)
   for (int i = 0; i < (stage ? 60 : 20); ++i) {
@@ -799,6 +1073,8 @@ int main(int argc, char** argv) {
     vh::Trace trs(argv[3]);          // schedule lines go to a second file
     vh::Trace::current() = &tr;
     mode_recon(tr, trs, argc > 4 ? atoi(argv[4]) : 0, rng);
+  } else if (mode == "events") {
+    mode_events(tr, atoi(argv[3]), rng, std::string(argv[2]) + ".files");
   } else if (mode == "sched") {
     const int maxN = atoi(argv[3]), iters = argc > 4 ? atoi(argv[4]) : 3, stage = argc > 5 ? atoi(argv[5]) : 0;
     mode_sched(tr, maxN, iters, stage, rng, std::string(argv[2]) + ".child");
